@@ -1,4 +1,5 @@
 import BytomModel.Drv.EconUtil
+import BytomModel.Gen.EconFacts
 /- driver mode c14 (stateful; every case starts with `reset`).
    reset <interval> <minVotes> <epoch> <maxValidators> <federation|->            → ok
    ckpt <g|u|j|f> <height> <timestamp> <votes|-> <rewards|->                     → ok
@@ -18,6 +19,17 @@ def insertO (x : COut) : List COut → List COut
   | [] => [x]
   | y :: t => if ltB x.program y.program then x :: y :: t else y :: insertO x t
 
+/-- `validatorReward()` re-evaluated by the driver from the MODEL's own vote table with IEEE
+    doubles (Lean `Float`), constants regenerated from consensus/general.go: a cross-check of the
+    subsidy the harness passes in (executable only; no theorem is stated about `Float`) -/
+def subsidyF (votes : KMap) (height : Nat) : Nat :=
+  let br := BytomModel.Gen.EconFacts.BlockReward
+  let total := totalVotes votes
+  let supply := ((height * br) % u64 / 2 + BytomModel.Gen.EconFacts.InitBTMSupply) % u64
+  let rate := Float.ofNat total / Float.ofNat supply
+  let thr := Float.ofNat BytomModel.Gen.EconFacts.RewardThresholdNum / Float.ofNat BytomModel.Gen.EconFacts.RewardThresholdDen
+  if rate <= thr then ((rate + thr) * Float.ofNat br).toUInt64.toNat else br
+
 def step (s : St) (line : String) : St × String :=
   match words line with
   | ["reset", i, m, e, mx, fed] =>
@@ -35,7 +47,10 @@ def step (s : St) (line : String) : St × String :=
     match h.toNat?, ts.toNat?, sub.toNat?, parseOuts outs, parseTxs rest with
     | some h, some ts, some sub, some outs, some txs =>
       match increase s.p s.c { height := h, timestamp := ts, txs := txs, outs0 := outs } true sub with
-      | .ok c => ({ s with c := c }, showPairs (sortK c.rewards))
+      | .ok c =>
+        let want := subsidyF c.votes c.height
+        let note := if want == sub then "" else s!" subsidy-mismatch(model {want})"
+        ({ s with c := c }, showPairs (sortK c.rewards) ++ note)
       | .err => (s, "err")
       | .panic => (s, "panic")
     | _, _, _, _, _ => (s, "bad-op")
